@@ -48,7 +48,9 @@ iteration:
 			if jsonTag == "-" {
 				continue
 			}
-			if jsonTag == "" {
+			// as in encoding/json, an embedded struct is flattened unless its tag gives it a name
+			// (`json:",omitempty"` names nothing)
+			if name, _, _ := strings.Cut(jsonTag, ","); name == "" {
 				fields = appendFields(fields, index, f.Type, append(embedding, t)...)
 				continue iteration
 			}
@@ -121,7 +123,11 @@ func (list sortableFieldInfos) Less(i, j int) bool {
 		// As in encoding/json, a field promoted from an embedded struct is hidden by a
 		// shallower field of the same name, wherever it is declared: the shallower
 		// one goes last, the last one being the one kept.
-		return len(list[i].Index) > len(list[j].Index)
+		if len(list[i].Index) != len(list[j].Index) {
+			return len(list[i].Index) > len(list[j].Index)
+		}
+		// at the same depth a field named by its tag wins over one named by its Go name
+		return !list[i].HasJSONTag && list[j].HasJSONTag
 	}
 	return list[i].JSONName < list[j].JSONName
 }
